@@ -92,6 +92,11 @@ func semanticTokensForTraversal(traversal hcl.Traversal) []lang.SemanticToken {
 				},
 			}
 
+			if idxRange.End.Column < 1 || idxRange.End.Byte <= idxRange.Start.Byte {
+				// unclosed index (no closing bracket to step back from)
+				continue
+			}
+
 			if ts.Key.Type() == cty.String {
 				tokens = append(tokens, lang.SemanticToken{
 					Type:      lang.TokenMapKey,
